@@ -139,16 +139,16 @@ type opMeta struct {
 
 // Sim is one world + history + monitors.
 type Sim struct {
-	C      *kit.Check
-	W      *kit.World
-	R      *kit.Rng
-	prop   string
-	chains []*chainSt
-	links  []*link
-	meta   *opMeta
-	trace  []string
+	C       *kit.Check
+	W       *kit.World
+	R       *kit.Rng
+	prop    string
+	chains  []*chainSt
+	links   []*link
+	meta    *opMeta
+	trace   []string
 	classes []string
-	quiet  bool // harness-side state injection in progress: history is rebased, monitors stay silent
+	quiet   bool // harness-side state injection in progress: history is rebased, monitors stay silent
 
 	tries map[string]int // "<chain>|conn|<id>" / "<chain>|chan|<key>" → number of Try messages accepted for it
 }
